@@ -8,7 +8,9 @@
  4 correspond  (a) expression level: every binary operator x every ordered pair of operand classes, NOT, quantifiers
                    (real TypeChecker::checkExpression vs generated model, via the C14 harness/driver)
                (b) formula level: random formula trees up to depth 8 placed as guard and as invariant in real XML
-                   models (parse_XML_file: XML reader, parser, builder, type checker) vs drv_c10
+                   models (parse_XML_file / _buffer / _fd: XML reader, parser, builder, type checker) vs drv_c10; the models vary
+                   where the formula stands (self loop, edge into / out of a branchpoint, dynamic or unused template, after labels
+                   that bind the clocks' names in a scope of their own) and how its text is written (entities, CDATA)
  5 search      the property itself on the implementation's verdicts: accepted  =>  convex (python reference
                implementation of `Convex`, independent of the Lean one); plain conjunctions of accepted atoms accepted
 """
@@ -237,21 +239,90 @@ def listed_shapes():
 
 
 # ------------------------------------------------------------------------------------------------ XML models
-SHAPES = ["plain", "rate", "uninstantiated", "dynamic"]
+SHAPES = ["plain", "rate", "uninstantiated", "dynamic", "branch-out", "branch-in", "shadow"]
+# how the model text reaches the library: entry point x the way a label's text is written in the XML.  Each entry point configures its own
+# libxml2 reader, and `x < 5 && b` is as often written as a CDATA section as with entities
+DELIVERIES = [("file", "entity"), ("buffer", "cdata"), ("fd", "entity"), ("buffer", "entity"), ("file", "cdata"), ("fd", "cdata"),
+              ("buffer", "mixed"), ("file", "mixed")]
 
 
-def xml_model(texts, shape="plain"):
-    """one template P; location i carries texts[i] as invariant, edge i (a self loop on location i) as guard.  The verdict on a formula
-    must not depend on what else the location carries or on how (whether) the template reaches the system:
+def placement(n):
+    """shape and delivery of the n-th model of a run (the two lengths are coprime: every combination comes up)"""
+    return SHAPES[n % len(SHAPES)], DELIVERIES[n % len(DELIVERIES)]
+
+
+def label_text(t, enc):
+    """the character data of a label: with entities, as one CDATA section, or as a CDATA section followed by ordinary text"""
+    if enc == "entity":
+        return escape(t)
+
+    def cdata(u):
+        return "<![CDATA[" + u.replace("]]>", "]]]]><![CDATA[>") + "]]>"
+    if enc == "mixed" and " " in t[1:-1]:
+        k = t.index(" ", len(t) // 2) if " " in t[len(t) // 2:] else t.rindex(" ")
+        return cdata(t[:k]) + escape(t[k:])
+    return cdata(t)
+
+
+# labels that bind the names of the global clocks in a scope that ends with the label / the edge / the function: what such a label binds
+# must be gone when the next label is read.  (edge: select, guard, assignment; location: invariant, rate)
+DECOY_EDGES = [("x : int[0,1], y : int[0,1]", "exists (q : int[0,1]) (b && x == q)", None),
+               (None, "exists (x : int[0,1]) (x == i)", None),
+               ("z : int[0,1]", "forall (q : int[0,1]) (z >= q || b)", None),
+               (None, "forall (y : int[0,1]) exists (z : int[0,1]) (y + z > i)", "i = sum (x : int[0,1]) x"),
+               ("xs : int[0,1], x : int[0,1]", "xs == x && (exists (y : int[0,1]) y == xs)", "j = shadowed(x, xs)"),
+               (None, "b || (exists (x : int[0,1]) forall (y : int[0,1]) exists (z : int[0,1]) x + y == z)", None)]
+DECOY_LOCS = [("exists (x : int[0,1]) (x == i)", None),
+              ("forall (y : int[0,1]) (y <= bi)", "1 + (sum (z : int[0,1]) z)"),
+              ("b || (exists (x : int[0,1]) exists (y : int[0,1]) x == y)", None),
+              (None, "1 + (sum (x : int[0,1]) x)"),
+              ("forall (z : int[0,1]) exists (x : int[0,1]) (x + z > i)", None)]
+SHADOW_DECLS = "int shadowed(int x, int z) { int y = x; return y + z; }"
+
+
+def xml_model(texts, shape="plain", enc="entity", with_layout=False):
+    """one template P; formula i is the invariant of location L<i> and the guard of edge i.  The verdict on a formula must not depend on what
+    else the model carries, on where the edge goes, or on how (whether) the template reaches the system:
+      plain           edge i is a self loop on L<i>
       rate            every location also has an exponential rate label
       uninstantiated  P is not on the system line (a second template is); the type checker still checks it
-      dynamic         P is a dynamic template, spawned by the template on the system line"""
-    locs, trans = [], []
+      dynamic         P is a dynamic template, spawned by the template on the system line
+      branch-out      edge i LEAVES a branchpoint (it also carries a probability label); the edge entering the branchpoint is unlabelled
+      branch-in       edge i enters a branchpoint, two weighted edges leave it
+      shadow          before every L<i> / edge i stands a decoy location / edge whose labels bind the names of the global clocks (select
+                      variables, quantifier and sum binders); a function and an earlier template do the same with parameters and locals
+    Returns the XML text; with_layout also (index of P among the templates, formula index per location, formula index per transition) in
+    document order, None for elements that carry no formula."""
+    def lab(kind, t):
+        return "" if t is None else '<label kind="%s">%s</label>' % (kind, label_text(t, enc) if kind in ("guard", "invariant") else escape(t))
+    locs, trans, late, bps = [], [], [], []
+    loc_of, edge_of = [], []
     for n, t in enumerate(texts):
+        if shape == "shadow":
+            inv, rate_ = DECOY_LOCS[n % len(DECOY_LOCS)]
+            locs.append('<location id="idd%d"><name>D%d</name>%s%s</location>' % (n, n, lab("invariant", inv), lab("exponentialrate", rate_)))
+            loc_of.append(None)
+            sel, grd, upd = DECOY_EDGES[n % len(DECOY_EDGES)]
+            trans.append('<transition><source ref="idd%d"/><target ref="id%d"/>%s%s%s</transition>'
+                         % (n, n, lab("select", sel), lab("guard", grd), lab("assignment", upd)))
+            edge_of.append(None)
         rate = '<label kind="exponentialrate">%d</label>' % (n % 3 + 1) if shape == "rate" else ""
-        locs.append('<location id="id%d"><name>L%d</name><label kind="invariant">%s</label>%s</location>' % (n, n, escape(t), rate))
-        trans.append('<transition><source ref="id%d"/><target ref="id%d"/><label kind="guard">%s</label></transition>' % (n, n, escape(t)))
-    decls, extra, system = DECLS, "", "system P;"
+        locs.append('<location id="id%d"><name>L%d</name>%s%s</location>' % (n, n, lab("invariant", t), rate))
+        loc_of.append(n)
+        src = dst = "id%d" % n
+        extra_lab = ""
+        if shape == "branch-out":
+            bps.append('<branchpoint id="bp%d"/>' % n)
+            late.append('<transition><source ref="id%d"/><target ref="bp%d"/></transition>' % (n, n))
+            src, extra_lab = "bp%d" % n, lab("probability", str(n % 4 + 1))
+        elif shape == "branch-in":
+            bps.append('<branchpoint id="bp%d"/>' % n)
+            late += ['<transition><source ref="bp%d"/><target ref="id%d"/>%s</transition>' % (n, n, lab("probability", str(w))) for w in (1, 2)]
+            dst = "bp%d" % n
+        trans.append('<transition><source ref="%s"/><target ref="%s"/>%s%s</transition>' % (src, dst, lab("guard", t), extra_lab))
+        edge_of.append(n)
+    edge_of += [None] * len(late)
+    decls, extra, before, system, pdecl = DECLS, "", "", "system P;", ""
     if shape in ("uninstantiated", "dynamic"):
         upd = '<label kind="assignment">spawn P()</label>' if shape == "dynamic" else ""
         extra = ('<template><name>Q</name><location id="idq"><name>Q0</name></location><init ref="idq"/>'
@@ -259,22 +330,35 @@ def xml_model(texts, shape="plain"):
         system = "system Q;"
         if shape == "dynamic":
             decls = DECLS + "\ndynamic P();"
-    return ('<?xml version="1.0" encoding="utf-8"?>\n<nta><declaration>%s</declaration>\n<template><name>P</name><declaration></declaration>\n%s\n'
-            '<init ref="id0"/>\n%s\n</template>\n%s<system>%s</system></nta>\n' % (escape(decls), "\n".join(locs), "\n".join(trans), extra, system))
+    if shape == "shadow":
+        pdecl = SHADOW_DECLS
+        before = ('<template><name>S</name><parameter>const int[0,1] x, int &amp;y</parameter><declaration>int z; bool xs;</declaration>'
+                  '<location id="ids"><name>S0</name></location><init ref="ids"/>'
+                  '<transition><source ref="ids"/><target ref="ids"/>%s%s</transition></template>\n'
+                  % (lab("select", "xs : int[0,1]"), lab("guard", "exists (z : int[0,1]) x + y + z > xs")))
+    xml = ('<?xml version="1.0" encoding="utf-8"?>\n<nta><declaration>%s</declaration>\n%s<template><name>P</name><declaration>%s</declaration>\n%s\n%s\n'
+           '<init ref="id0"/>\n%s\n</template>\n%s<system>%s</system></nta>\n'
+           % (escape(decls), before, escape(pdecl), "\n".join(locs), "\n".join(bps), "\n".join(trans + late), extra, system))
+    return (xml, (2 if before else 1, loc_of, edge_of)) if with_layout else xml
 
 
-def run_models(build, docs, shapes=None):
-    """docs: list of lists of formula texts.  Returns per doc: (list of dict(inv_ok, guard_ok, guard_type, inv_msgs, guard_msgs), raw block)"""
+def run_models(build, docs, places=None):
+    """docs: list of lists of formula texts; places: (shape, (entry point, label encoding)) per doc, default placement(n).
+    Returns per doc: (list of dict(inv_ok, guard_ok, guard_type, inv_msgs, guard_msgs), raw block)"""
     exe = core.build_harness(build, "c10", ["c10.cpp"])
     d = os.path.join(core.CACHE, "c10-work-%d" % os.getpid())
     os.makedirs(d, exist_ok=True)
-    paths = []
+    paths, lines, layouts = [], [], []
     try:
         for n, texts in enumerate(docs):
+            shape, (entry, enc) = places[n] if places else placement(n)
             p = os.path.join(d, "m%05d.xml" % n)
-            open(p, "w").write(xml_model(texts, shapes[n] if shapes else SHAPES[n % len(SHAPES)]))
+            xml, layout = xml_model(texts, shape, enc, with_layout=True)
+            open(p, "w").write(xml)
             paths.append(p)
-        rc, out, err, dt = core.run_exe(exe, [], stdin_text="\n".join(paths) + "\n", timeout=1500)
+            lines.append("%s %s" % (entry, p))
+            layouts.append(layout)
+        rc, out, err, dt = core.run_exe(exe, [], stdin_text="\n".join(lines) + "\n", timeout=1500)
     finally:
         for p in paths:
             try:
@@ -289,22 +373,24 @@ def run_models(build, docs, shapes=None):
     if rc != 0 or len(blocks) < len(docs):
         return None, {"rc": rc, "stdout": out[-2000:], "stderr": err[-3000:], "answered": len(blocks) - 1, "asked": len(docs)}, dt
     res = []
-    for texts, blk in zip(docs, blocks):
+    for texts, blk, (tnr, loc_of, edge_of) in zip(docs, blocks, layouts):
         items = [{"inv_ok": True, "guard_ok": True, "guard_type": None, "msgs": []} for _ in texts]
         other = []
         for line in blk.split("\n"):
             if line.startswith("E "):
                 m = re.match(r"^E (\d+) guard=(.*)$", line)
-                if int(m.group(1)) < len(items):
-                    items[int(m.group(1))]["guard_type"] = m.group(2)
+                k = edge_of[int(m.group(1))] if int(m.group(1)) < len(edge_of) else None
+                if k is not None:
+                    items[k]["guard_type"] = m.group(2)
             elif line.startswith("ERROR"):
-                m = re.search(r'path="/nta/template\[1\]/(location|transition)\[(\d+)\]/label\[\d+\]"', line)
+                m = re.search(r'path="/nta/template\[%d\]/(location|transition)\[(\d+)\]/label\[\d+\]"' % tnr, line)
                 if not m:
                     other.append(line)
                     continue
-                idx = int(m.group(2)) - 1
-                if idx >= len(items):
-                    other.append(line)
+                where = loc_of if m.group(1) == "location" else edge_of
+                idx = where[int(m.group(2)) - 1] if int(m.group(2)) - 1 < len(where) else None
+                if idx is None:
+                    other.append(line)     # a diagnostic on a decoy / an unlabelled edge: nothing there may be wrong
                     continue
                 items[idx]["inv_ok" if m.group(1) == "location" else "guard_ok"] = False
                 items[idx]["msgs"].append(line[:160])
@@ -415,6 +501,14 @@ def run(ctx):
         a = ("C",) + e
         exc_forms[e] = [("|", a, a), ("!", a)]
         forms += exc_forms[e] * 4
+    # placement sweep: the shapes the statement lists, and a few random trees, once in every combination of model shape, entry point and
+    # label encoding (consecutive models run through all placements; the block starts on a model boundary)
+    per_doc = 40
+    head = listed_shapes()[:22]
+    while len(forms) % per_doc:
+        forms.append(gen_leaf(r, True))
+    for _ in range(len(SHAPES) * len(DELIVERIES) * (1 if not ctx.thorough else 4)):
+        forms += head + [gen_formula(r, r.choice([2, 3, 4]), "any") for _ in range(per_doc - len(head))]
     same = re.compile(r"\(([\w\[\] -]+) (?:<|<=|==|!=|>=|>) \1\)")
     texts = []
     for n, f in enumerate(forms):
@@ -426,7 +520,6 @@ def run(ctx):
                 break
             t = rend(r, f)     # avoid x ~ x: legal, but a poor witness
         texts.append(t)
-    per_doc = 40
     docs = [texts[i:i + per_doc] for i in range(0, len(texts), per_doc)]
     res, herr, dt = run_models(build, docs)
     if herr is not None:
@@ -435,7 +528,7 @@ def run(ctx):
     if not os.environ.get("C10_NO_ASAN"):
         k = min(len(docs), 25 if not ctx.thorough else 200)
         idx = sorted(ctx.rng.sample(range(len(docs)), k))
-        ares, aerr, adt = run_models(core.build_repo("asan"), [docs[i] for i in idx], [SHAPES[i % len(SHAPES)] for i in idx])
+        ares, aerr, adt = run_models(core.build_repo("asan"), [docs[i] for i in idx], [placement(i) for i in idx])
         if aerr is not None:
             ctx.finding("impl:sanitizer", "the XML harness died under ASan/UBSan (rc=%s)" % aerr["rc"], aerr)
         else:
@@ -443,7 +536,7 @@ def run(ctx):
                    != [(x["guard_ok"], x["inv_ok"], x["guard_type"]) for x in res[i][0]]]
             cov["asan_sample"] = {"xml_models": k, "formulas": sum(len(docs[i]) for i in idx), "different_answers": len(bad), "seconds": round(adt, 1)}
             if bad:
-                ctx.finding("impl:sanitizer-build-differs", "ASan build answers differently on model %d" % bad[0], {"xml": xml_model(docs[bad[0]], SHAPES[bad[0] % len(SHAPES)])})
+                ctx.finding("impl:sanitizer-build-differs", "ASan build answers differently on model %d" % bad[0], {"xml": xml_model(docs[bad[0]], placement(bad[0])[0], placement(bad[0])[1][1]), "entry_point": placement(bad[0])[1][0]})
     ctx.log("library checked %d formulas (as guard and as invariant) in %d XML models, %.1fs" % (len(forms), len(docs), dt))
     verdicts = []
     stray = []
@@ -537,14 +630,25 @@ def run(ctx):
             if (allg and not verdicts[n]["guard_ok"]) or (alli and not verdicts[n]["inv_ok"]):
                 key = "conjunction-rejected:" + "+".join(sorted(set(leaf_name(a) for a in at)))[:80]
                 viol.setdefault(key, (f, texts[n], verdicts[n]["guard_ok"], verdicts[n]["inv_ok"], guard_kind(verdicts[n]["guard_type"]), n))
+    # the replay is the formula alone in a model of the same shape, delivered the same way -- when that still shows the verdict; a verdict
+    # that needs the labels read before it keeps the whole model
+    alone = {}
+    if viol:
+        keys = sorted(viol)
+        sres, serr, _ = run_models(build, [[viol[k][1]] for k in keys], [placement(viol[k][5] // per_doc) for k in keys])
+        if serr is None:
+            alone = {k: (it[0]["guard_ok"], it[0]["inv_ok"]) == (viol[k][2], viol[k][3]) for k, (it, _, _) in zip(keys, sres)}
     for key, (f, text, g_ok, i_ok, gk, n) in sorted(viol.items()):
-        shp = SHAPES[(n // per_doc) % len(SHAPES)]
+        shp, (entry, enc) = placement(n // per_doc)
+        chunk = [text] if alone.get(key) else docs[n // per_doc]
         what = ("`%s` is %s as guard and %s as invariant (type %s) although it is %s"
                 % (text, "accepted" if g_ok else "rejected", "accepted" if i_ok else "rejected", gk,
                    "a plain conjunction of accepted atoms" if key.startswith("conjunction") else
                    "built over a clock atom that is rejected on its own" if key.startswith("accepted-with") else "not convex"))
-        ctx.finding(key, what, {"formula": wire(f), "text": text, "xml": xml_model([text], shp), "model_shape": shp, "guard_accepted": g_ok, "invariant_accepted": i_ok,
-                                "how": "harness/c10.cpp on the XML model (parse_XML_file)"})
+        ctx.finding(key, what, {"formula": wire(f), "text": text, "xml": xml_model(chunk, shp, enc), "model_shape": shp, "entry_point": "parse_XML_" + entry,
+                                "label_text_as": enc, "texts": chunk, "index": 0 if alone.get(key) else n % per_doc,
+                                "guard_accepted": g_ok, "invariant_accepted": i_ok,
+                                "how": "harness/c10.cpp on the XML model (L<index> / edge <index> carry the formula)"})
     # exceptions of the model must show on the library (otherwise model and library differ: correspondence catches it)
     # ---- expression level correspondence
     n_expr, dis_expr, decls = (0, [], "")
@@ -576,10 +680,13 @@ def run(ctx):
     cov["distribution"] = {"formulas": len(forms), "xml_models": len(docs), "accepted_as_guard": acc_g, "accepted_as_invariant": acc_i,
                            "not_convex": nonconvex, "in_property_language": wf_n, "guard_kinds": kinds, "depth_histogram": depth_hist,
                            "plain_conjunctions_checked": conj_n, "max_depth": max(depth_hist)}
-    cov["model_shapes"] = {sh: len([1 for i in range(len(docs)) if SHAPES[i % len(SHAPES)] == sh]) for sh in SHAPES}
+    cov["model_shapes"] = {sh: len([1 for i in range(len(docs)) if placement(i)[0] == sh]) for sh in SHAPES}
+    cov["deliveries"] = {"%s/%s" % dl: len([1 for i in range(len(docs)) if placement(i)[1] == dl]) for dl in DELIVERIES}
+    cov["placements_hit"] = len(set(placement(i) for i in range(len(docs))))
     cov["rule"] = ("all 96 comparison leaves x {alone, ||, !, &&, forall, exists}, the shapes listed in the statement, %d random trees "
-                   "(depth 2..8; two thirds biased towards convex shapes), %d plain conjunctions; each as guard AND as invariant in an XML model"
-                   % (n_random, 600 if not ctx.thorough else 6000))
+                   "(depth 2..8; two thirds biased towards convex shapes), %d plain conjunctions; each as guard AND as invariant in an XML model; "
+                   "models cycle through %d shapes x %d deliveries (entry point, label encoding), the listed shapes pass through every combination"
+                   % (n_random, 600 if not ctx.thorough else 6000, len(SHAPES), len(DELIVERIES)))
     cov["samples"] = [{"formula": wire(forms[n]), "text": texts[n], "guard_ok": verdicts[n]["guard_ok"], "inv_ok": verdicts[n]["inv_ok"],
                        "guard_type": guard_kind(verdicts[n]["guard_type"]), "model": model[n]} for n in (0, len(forms) // 2, len(forms) - 1)]
     ctx.assumptions += [
@@ -619,13 +726,14 @@ def replay(ctx, path):
         run(ctx)
         return ctx.finish()
     build = core.build_repo(os.environ.get("C10_VARIANT", "plain"))
-    res, herr, dt = run_models(build, [[rr["text"]]])
+    place = (rr.get("model_shape", "plain"), (rr.get("entry_point", "parse_XML_file")[len("parse_XML_"):], rr.get("label_text_as", "entity")))
+    res, herr, dt = run_models(build, [rr.get("texts", [rr["text"]])], [place])
     if herr:
         print(herr)
         return 1
     items, other, blk = res[0]
     print(blk)
-    v = items[0]
+    v = items[rr.get("index", 0)]
     still = (v["guard_ok"] == rr.get("guard_accepted")) and (v["inv_ok"] == rr.get("invariant_accepted"))
     print("guard accepted: %s  invariant accepted: %s  (recorded: %s / %s)" % (v["guard_ok"], v["inv_ok"], rr.get("guard_accepted"), rr.get("invariant_accepted")))
     return 1 if still else 0
